@@ -374,7 +374,7 @@ def load_known():
 class Check:
     """Bookkeeping of one run of one property check."""
 
-    def __init__(self, pid, tier, seed):
+    def __init__(self, pid, tier, seed, fresh=True):
         self.pid, self.tier, self.seed = pid, tier, seed
         self.t0 = time.time()
         self.violations = []          # (replay path, text)
@@ -393,7 +393,7 @@ class Check:
         self.replay_dir = os.environ.get("VERIF_REPLAY_DIR", os.path.join(VERIF, "replays"))
         os.makedirs(self.replay_dir, exist_ok=True)
         os.makedirs(self.evidence_dir, exist_ok=True)
-        for old in glob.glob(os.path.join(self.replay_dir, pid + "-*.replay")):   # replays of earlier runs of this check
+        for old in (glob.glob(os.path.join(self.replay_dir, pid + "-*.replay")) if fresh else []):   # replays of earlier runs of this check
             try:
                 os.remove(old)
             except OSError:
